@@ -65,13 +65,14 @@ def tasks_for(tier):
     add([("vec", "u8", 2), ("flush",), ("str", 2)], k=3, dbg=True, end="drop", group="compound")
     add([("str", 3), ("string", 2), ("char",)], dbg=True, group="compound")
     # pieces at least as long as the buffer (the &str/String chunking path), with earlier bytes still pending
-    add([("str", 3), ("fill", 65536), ("char",)], k=65536, end="flush", group="chunks")
-    add([("char",), ("fill", 65536 + 7), ("str", 2)], k=10, end="drop", group="chunks")
+    # (lengths are written relative to the real buffer size BUF, read from the MIR on every run)
+    add([("str", 3), ("fill", "BUF"), ("char",)], k="BUF", end="flush", group="chunks")
+    add([("char",), ("fill", "BUF+7"), ("str", 2)], k=10, end="drop", group="chunks")
     if tier == "thorough":
-        add([("fill", 65536 + 7), ("str", 2)], k=None, end="drop", group="chunks")
-        add([("str", 3), ("fill", 65536), ("char",)], k=10, end="flush", group="chunks")
-        add([("fill", 2 * 65536 + 1)], k=65536, end="drop", group="chunks")
-        add([("str", 3), ("fill", 65536), ("char",)], k=65536, end="flush", dbg=True, group="chunks")
+        add([("fill", "BUF+7"), ("str", 2)], k=None, end="drop", group="chunks")
+        add([("str", 3), ("fill", "BUF"), ("char",)], k=10, end="flush", group="chunks")
+        add([("fill", "2*BUF+1")], k="BUF", end="drop", group="chunks")
+        add([("str", 3), ("fill", "BUF"), ("char",)], k="BUF", end="flush", dbg=True, group="chunks")
         for k in (0, 1, 2, 20, 40, 45):
             add([("str", k), ("str", k), ("str", k)], k=k, end="drop", group="boundary")
     return T
@@ -86,10 +87,14 @@ def run_task(t):
     try:
         prog = IoProgram(open(mir_path(t["dbg"])).read())
         rprog = IoProgram(open(mir_path(t["dbg"])).read()) if t["rt"] else None
-        wc = WriterCheck(prog, prog.buf_size("writer"))
+        BUF = prog.buf_size("writer")
+        wc = WriterCheck(prog, BUF)
+        rel = lambda v: eval(v, {"BUF": BUF}) if isinstance(v, str) and "BUF" in v else v
+        t = dict(t, k=rel(t["k"]), script=[[rel(y) for y in x] for x in t["script"]], buf=BUF)
         script = [tuple(x) if not isinstance(x, tuple) else x for x in t["script"]]
         rt = [tuple(x) for x in t["rt"]] if t["rt"] else None
         r = wc.check_script(script, t["k"], t["end"], rt, rprog)
+        r["task"] = t
         lem = set(prog.used_lemmas) | (set(rprog.used_lemmas) if rprog else set())
         return dict(name=name, group=t["group"], ok=True, paths=r["paths"], obligations=r["obligations"], queries=prog.nq + wc.ob.n + (rprog.nq if rprog else 0),
                     solver_time=prog.solver_time + wc.ob.time, violations=r["violations"], inconclusive=r["inconclusive"], time=time.time() - t0,
@@ -148,6 +153,7 @@ VALIDATION = [
     (["i8:-128", "c:10", "u8:0", "S:78797a", "f", "i64:-9223372036854775808"], b"-128\n0xyz-9223372036854775808"),
     (["p:65530", "u32:4294967295", "c:33"], b"x" * 65530 + b"4294967295!"),
     (["p:65536", "p:3", "i16:-1"], b"x" * 65539 + b"-1"),
+    (["p:100000", "c:65", "p:40000"], b"x" * 100000 + b"A" + b"x" * 40000),
 ]
 
 
@@ -271,9 +277,10 @@ def run_engine(tier, seed, known, only):
                 ops, exp = native_ops(v["model"])
                 if ops:
                     t = r["task"]
-                    pre = ["p:%d" % (65536 - t["k"])] if t["k"] is not None else []
+                    buf = t.get("buf", 65536)
+                    pre = ["p:%d" % (buf - t["k"])] if t["k"] is not None and buf - t["k"] > 0 else []
                     nat = native_write(pre + ops, release=not t["dbg"])
-                    want = b"x" * (65536 - t["k"] if t["k"] is not None else 0) + exp
+                    want = b"x" * (buf - t["k"] if t["k"] is not None else 0) + exp
                     ok = nat != want
                     text = "native sink %r..., expected %r..." % ((nat or b"")[-48:], want[-48:])
             rdir = os.path.join(VERIF, "replays", "C09"); os.makedirs(rdir, exist_ok=True)
